@@ -163,6 +163,31 @@ impl Placed {
     pub fn slice(&self) -> &[u8] { &self.buf[self.start..self.start + self.len] }
 }
 
+/// A copy of `bytes` that ends exactly at a PROT_NONE page: a read past the end faults.
+pub struct GuardPlaced { map: *mut u8, map_len: usize, start: usize, len: usize }
+impl GuardPlaced {
+    pub fn new(bytes: &[u8]) -> Self {
+        let page = 4096usize;
+        let data_pages = (bytes.len() + page - 1) / page + 1;
+        let map_len = (data_pages + 1) * page;
+        unsafe {
+            let map = libc::mmap(core::ptr::null_mut(), map_len, libc::PROT_READ | libc::PROT_WRITE,
+                                 libc::MAP_PRIVATE | libc::MAP_ANONYMOUS, -1, 0) as *mut u8;
+            assert!(map as isize != -1, "mmap failed");
+            let guard = map.add(data_pages * page);
+            let start = data_pages * page - bytes.len();
+            core::ptr::copy_nonoverlapping(bytes.as_ptr(), map.add(start), bytes.len());
+            let r = libc::mprotect(guard as *mut libc::c_void, page, libc::PROT_NONE);
+            assert!(r == 0, "mprotect failed");
+            GuardPlaced { map, map_len, start, len: bytes.len() }
+        }
+    }
+    pub fn slice(&self) -> &[u8] { unsafe { core::slice::from_raw_parts(self.map.add(self.start), self.len) } }
+}
+impl Drop for GuardPlaced {
+    fn drop(&mut self) { unsafe { libc::munmap(self.map as *mut libc::c_void, self.map_len); } }
+}
+
 fn u(v: &Value, k: &str) -> usize { v[k].as_u64().unwrap_or(0) as usize }
 fn opt_u(v: &Value, k: &str) -> Option<usize> { v.get(k).and_then(|x| x.as_u64()).map(|x| x as usize) }
 fn usv(v: &Value, k: &str) -> Vec<usize> {
@@ -358,8 +383,15 @@ where
             o["full"] = Self::de_full_pub(&bytes, &case["reader"]);
         }
         if case["eps"].as_bool().unwrap_or(true) {
-            let p = Placed::new(&bytes, u(case, "base"));
-            o["eps"] = Self::de_eps_pub(p.slice());
+            if case["guard"].as_bool().unwrap_or(false) {
+                let p = GuardPlaced::new(&bytes);
+                let mut e = Self::de_eps_pub(p.slice());
+                e["base_res"] = json!(p.slice().as_ptr() as usize % 128);
+                o["eps"] = e;
+            } else {
+                let p = Placed::new(&bytes, u(case, "base"));
+                o["eps"] = Self::de_eps_pub(p.slice());
+            }
         }
         o
     }
